@@ -429,7 +429,7 @@ pub fn arb_scenario() -> impl Strategy<Value = Scenario> {
 pub fn run(ctx: &Ctx) {
     ctx.rule("traffic states at the instant of the signal: 0..16 connections each {just accepted, idle keep-alive, half-sent request, short handler, handler blocked on a harness gate, 6 MB response with a reader that does not read, WebSocket open}, pools of 1..8 threads (often fully occupied with queued connections), signal before the first connection (even before run), after the states are established, or concurrently with a burst of connects (offset 0..5 ms); bind 127.0.0.x, 0.0.0.0 and [::] with an explicit free port. Oracle: a probe is served before the signal (when a worker is free), `run` returns Ok within 10 s (else one extra connection is made to pinpoint a lost wake-up), the same address binds again at once, and every request fully sent before the signal gets its complete response after the gate opens. Non-trivial: a connection that is not idle at the signal, a fully occupied pool, or a signal concurrent with connects; distinct by scenario");
     ctx.assume("threaded runtime; timing is sampled, not controlled; bounded time is the property (10 s margin, typical return is milliseconds); connections racing with the signal are not required to be answered");
-    let cases = ctx.tier.pick(640u32, 16000u32);
+    let cases = ctx.tier.pick(1920u32, 16000u32);
     let nshards = 16;
     crate::engine::shards(nshards, |i| {
         pt::run(
